@@ -26,7 +26,7 @@ ASSUMPTIONS = [
     "statistics 28-31 are taken in their implemented reading (step of two, intersected with records), see DESIGN §3",
 ]
 REQUIRED = ["named.checked", "listing.checked", "tools.distribution", "tools.preserved", "tools.transformed.nonempty", "tools.equidistributed",
-            "calls.Perm.count_inversions", "calls.Perm.holeyness", "calls.Perm.rtlmax_ltrmin_decomposition", "calls.Perm.cycle_decomp", "aliasing.mutated_results", "shortcuts.checked", "tool_faults.function_failed_once", "tool_faults.injected", "tools.class_with_empty_level_below_members", "tools.transformed_equidistributed"]
+            "calls.Perm.count_inversions", "calls.Perm.holeyness", "calls.Perm.rtlmax_ltrmin_decomposition", "calls.Perm.cycle_decomp", "aliasing.mutated_results", "shortcuts.checked", "tool_faults.function_failed_once", "tool_faults.injected", "tools.class_with_empty_level_below_members", "tools.transformed_equidistributed", "tools.cancelling_pairs", "primes.history_checked", "long.perms"]
 MIN_NONTRIVIAL = 3000
 CTX = None
 MON = None
@@ -469,7 +469,91 @@ def chk_equidistributed(ctx, b1, b2, n):
     ctx.nt(("equi", repr(b1), repr(b2), n))
 
 
-CHECKS = {"toolfault": chk_tool_fault, "shortcut": chk_shortcuts, "method": chk_method, "perm": chk_perm, "distribution": chk_distribution, "bijection": chk_bijection, "equi": chk_equidistributed}
+def _sieve(limit):
+    flags = bytearray([1]) * (limit + 1)
+    flags[0:2] = b"\x00\x00"
+    for i in range(2, int(limit ** 0.5) + 1):
+        if flags[i]:
+            flags[i * i:: i] = bytearray(len(flags[i * i:: i]))
+    return flags
+
+
+def chk_primes(ctx, seed, limit):
+    """the primality helper behind 'column sum primes', asked in an arbitrary order (history), through both of its bindings"""
+    import random
+
+    import permuta.misc.math as PM
+    import permuta.patterns.perm as PPM
+
+    rng = random.Random(seed)
+    truth = _sieve(limit)
+    primes = [i for i in range(limit + 1) if truth[i]]
+    # large primes first, then squares and products of primes, then everything in a random order
+    order = rng.sample(primes, min(40, len(primes))) + [a * b for a in primes[5:40] for b in primes[5:40] if a * b <= limit]
+    rest = list(range(-3, limit + 1))
+    rng.shuffle(rest)
+    for fn in (PM.is_prime, PPM.is_prime):
+        for v in order + rest[: limit // 2]:
+            got = fn(v)
+            ctx.ev()
+            if got is not bool(v >= 0 and truth[v]):
+                report("primes", [seed, limit], f"is_prime({v}) = {got!r} (after other numbers were asked first), by the sieve: {bool(v >= 0 and truth[v])}")
+                return
+    ctx.count("primes.history_checked")
+
+
+def chk_long(ctx, p_kind, n, seed):
+    """cheap statistics on long structured permutations (beyond every exhaustive bound; lengths above 500 and 1000)"""
+    import random
+
+    rng = random.Random(seed)
+    if p_kind == "identity_swaps":
+        p = list(range(n))
+        for _ in range(rng.randint(1, 4)):
+            i = rng.randrange(n - 1)
+            p[i], p[i + 1] = p[i + 1], p[i]
+    elif p_kind == "decreasing":
+        p = list(range(n - 1, -1, -1))
+    elif p_kind == "layered":
+        p, start = [], 0
+        while start < n:
+            size = min(n - start, rng.randint(1, 9))
+            p += list(range(start + size - 1, start - 1, -1))
+            start += size
+    else:
+        p = rng.sample(range(n), n)
+    for name in LONG_METHODS:
+        chk_method(ctx, name, p, [])
+    ctx.count("long.perms")
+    ctx.nt(("long", p_kind, n, seed))
+
+
+LONG_METHODS = ["count_column_sum_primes", "count_fixed_points", "count_inversions", "count_peaks", "count_valleys", "count_bonds", "count_inc_bonds",
+                "count_dec_bonds", "count_ltrmin", "count_ltrmax", "count_rtlmin", "count_rtlmax", "count_cycles", "major_index", "is_involution", "order",
+                "length_of_longestrun_ascending", "length_of_longestrun_descending", "count_double_drops", "count_double_excedance", "depth",
+                "max_drop_size", "count_cyclic_peaks", "count_aftermaxima", "count_foreminima", "is_increasing", "is_decreasing", "count_bounces"]
+
+
+def cancelling_pairs(rng, n, count):
+    """pairs of classes with the same number of permutations up to length n in total but different numbers per length:
+    exactly the data on which a comparison pooled over lengths and the per-length definition can disagree"""
+    pool = [list(p) for k in (2, 3) for p in itertools.permutations(range(k))]
+    bases = [list(c) for r in (1, 2, 3) for c in itertools.combinations(pool, r)]
+    rng.shuffle(bases)
+    groups = collections.defaultdict(list)
+    for b in bases[:70]:
+        counts = tuple(len(l) for l in avmodel.levels([tuple(q) for q in b], n))
+        groups[sum(counts)].append((counts, b))
+    out = []
+    for total, members in sorted(groups.items(), key=lambda kv: -kv[0]):
+        for (c1, b1), (c2, b2) in itertools.combinations(members, 2):
+            if c1 != c2:
+                out.append((b1, b2))
+    rng.shuffle(out)
+    return out[:count]
+
+
+CHECKS = {"primes": chk_primes, "long": chk_long, "toolfault": chk_tool_fault, "shortcut": chk_shortcuts, "method": chk_method, "perm": chk_perm, "distribution": chk_distribution, "bijection": chk_bijection, "equi": chk_equidistributed}
 
 
 def plan(tier, seed):
@@ -541,6 +625,9 @@ def run(ctx, spec):
         chk_equidistributed(ctx, b1, b2, 3)
         chk_equidistributed(ctx, b1, b2, 5)
         chk_equidistributed(ctx, rng.sample(pool, 2), rng.sample(pool, 2), 4)
+        for b1, b2 in cancelling_pairs(rng, 4, 5 if ctx.tier == "quick" else 25):
+            chk_equidistributed(ctx, b1, b2, 4)
+            ctx.count("tools.cancelling_pairs")
         ctx.sample({"equidistribution": [b1, b2], "bijection_kind": kind})
     else:
         linear = [n for n in METHODS if n not in ("holeyness", "fourpats", "threepats")]
@@ -550,4 +637,8 @@ def run(ctx, spec):
             for name in rng.sample(linear, 12):
                 chk_method(ctx, name, p, [])
             chk_method(ctx, rng.choice(list(STEP_METHODS)), p, [rng.choice([None, 1, 2, 5])])
+        chk_primes(ctx, rng.randrange(10 ** 6), 6000 if ctx.tier == "quick" else 40000)
+        for kind in ("identity_swaps", "decreasing", "layered", "random"):
+            for n in (rng.randint(501, 700), rng.randint(701, 1100), rng.randint(1300, 1500)):
+                chk_long(ctx, kind, n, rng.randrange(10 ** 6))
         ctx.sample({"random_perm": p})
